@@ -242,6 +242,12 @@ def w_two_grids(ctx, rng, i):
     ctx.case(("grids", tuple(seq), shape, BW / R, use_dsp), sample=dict(R=R, sps_sequence=seq, shape=shape, BW_over_R=BW / R) if i < 2 else None)
 
 
+def FORM_TWINS():
+    import opticomlib.ook as ok
+    import opticomlib.ppm as pp
+    return [(ok, ["DSP", "BER_analizer"]), (pp, ["DSP", "BER_analizer"])]
+
+
 WORKLOADS = [
     Workload("link", w_link, 2160, 40000, budget=120),
     Workload("ook_dsp", w_ook_dsp, 600, 6000, budget=120),
